@@ -5,7 +5,7 @@
 Require Import Calc.Sem.
 Require Import Calc.Base Calc.Bytecode Calc.Value Calc.FloatText Calc.Ast Calc.Resolve Calc.Compile Calc.VM
         Calc.Session Calc.CorrSession Calc.CompileWf
-        Calc.ExprSem Calc.ExprAssign Calc.ExprLen Calc.ExprSession Calc.LExprSem Calc.StmtSem Calc.StmtRel Calc.StmtDef Calc.StmtMixed.
+        Calc.ExprSem Calc.ExprAssign Calc.ExprLen Calc.ExprSession Calc.LExprSem Calc.StmtSem Calc.StmtRel Calc.StmtDef Calc.StmtMixed Calc.StmtStart.
 Open Scope Z_scope.
 
 (* the premises of C01_statement_sessions_partial for one parsed tree *)
@@ -122,7 +122,8 @@ Definition session_names (trees : list node) : list string :=
   ["exit"; "fromto"; "indices"; "elems"]%string ++
   flat_map (fun t => match lambda_def t with Some f => [fst f] | None => [] end) trees.
 
-(* item_ok2 FN for one tree (plus: every callee is known, so that the statement semantics gives the calls a meaning) *)
+(* item_ok2 FN for one tree (plus: every callee is known, so that the statement semantics gives the calls a meaning);
+   sound: FragmentSound.v *)
 Definition tree_ok2 (FN : list string) (funs : list (string * nat)) (t : node) : bool :=
   match lambda_def t with
   | Some _ => match strewrite t with
@@ -130,12 +131,9 @@ Definition tree_ok2 (FN : list string) (funs : list (string * nat)) (t : node) :
               | _ => false
               end
   | None =>
-      in_fragment t &&
-      match strewrite t with
-      | Some t' => forallb (fun c => builtin_call_ok c || existsb (fun f => String.eqb (fst c) (fst f)) funs) (callees t') &&
-                   nobs (BS FN) t'
-      | None => false
-      end
+      wstmt t && wfb t &&
+      forallb (fun c => builtin_call_ok c || existsb (fun f => String.eqb (fst c) (fst f)) funs) (callees t) &&
+      nobs (BS FN) t
   end.
 
 (* the length of the longest prefix of the session all of whose trees meet the premises: up to there the
@@ -152,9 +150,22 @@ Fixpoint prefix_ok (FN : list string) (trees : list node) (funs : list (string *
       else 0
   end.
 
-(* 10^10 * (trees in the prefix covered by the Sem-vs-VM session theorem)
-   + 100000 * (trees that meet the premises of the compiled-side theorem) + (all trees) *)
+(* the session as the theorems see it: the first tree is run from the fresh machine (that run also executes the
+   definitions of the built-ins and is not covered); if the machine it leaves passes the sound check of the
+   machine premise (StmtStart.v: start_ok), the theorems apply from there to the longest prefix of the remaining
+   trees that meet the premises on trees *)
+Definition covered_prefix (trees : list node) : nat :=
+  match machine_new, trees with
+  | Some mc0, t1 :: r =>
+      if start_ok (fst (run_tree false mc0 t1))
+      then prefix_ok (session_names trees) r (match lambda_def t1 with Some f => [f] | None => [] end)
+      else 0
+  | _, _ => 0
+  end.
+
+(* 10^10 * (trees in the prefix covered by the session theorems)
+   + 100000 * (trees that meet the premises on trees of the compiled-side theorem) + (all trees) *)
 Definition chk_fragment (l : list ginput) : Z :=
   let trees := List.concat (map g_trees l) in
-  10000000000 * Z.of_nat (prefix_ok (session_names trees) trees []) +
+  10000000000 * Z.of_nat (covered_prefix trees) +
   100000 * Z.of_nat (count_fragment trees true []) + Z.of_nat (List.length trees).
